@@ -10,7 +10,13 @@ NTRACKS = 6
 
 
 def gen_tables(rng, profile):
-    if profile == "faults":
+    if profile == "faults" and rng.random() < 0.4:
+        # a mostly dead tracklist: one failure kind everywhere, at most two playable tracks
+        dead = rng.choice(["refuse", "nouri", "raises", "nobackend"])
+        kinds = [dead] * NTRACKS
+        for _ in range(rng.choice([0, 1, 1, 2])):
+            kinds[rng.randrange(NTRACKS)] = "playable"
+    elif profile == "faults":
         kinds = [rng.weighted([("playable", 4), ("refuse", 2), ("nouri", 1), ("raises", 1), ("nobackend", 1)])
                  for _ in range(NTRACKS)]
     elif profile in ("settled", "restore"):
@@ -21,8 +27,10 @@ def gen_tables(rng, profile):
         kinds = [rng.weighted([("playable", 8), ("refuse", 1), ("nouri", 0.5), ("raises", 0.5), ("nobackend", 0.5)])
                  for _ in range(NTRACKS)]
     lens = [rng.weighted([(None, 1), (1000, 3), (5000, 2), (1, 0.5)]) for _ in range(NTRACKS)]
-    if profile in ("settled", "restore"):
+    if profile == "settled":
         lens = [x if x is not None or rng.random() < 0.3 else 3000 for x in lens]
+    if profile == "restore":
+        lens = [None if rng.random() < 0.25 else (x or 3000) for x in lens]
     if profile == "settled":
         lens = [1000 if x == 1 else x for x in lens]
     if profile == "faults":
@@ -133,11 +141,11 @@ WEIGHTS = {
                   ("seek", 1), ("deliver", 5), ("atf", 1), ("tick", 0.5), ("save", 0.5), ("load", 0.5)],
     "schedule": [("add", 4), ("clear", 0.5), ("move", 1), ("remove", 2), ("shuffle", 0.5), ("setmode", 2),
                  ("play", 6), ("pause", 3), ("resume", 3), ("stop", 3), ("next", 5), ("previous", 4),
-                 ("seek", 4), ("deliver", 14), ("atf", 4), ("tick", 2), ("getnext", 0.5), ("geteot", 0.5),
+                 ("seek", 4), ("deliver", 14), ("atf", 4), ("eos", 1), ("tick", 2), ("getnext", 0.5), ("geteot", 0.5),
                  ("getprev", 0.5), ("index", 0.5), ("save", 0.3), ("load", 0.3)],
     "faults": [("add", 4), ("clear", 0.3), ("remove", 1.5), ("setmode", 3), ("play", 7), ("pause", 1),
                ("resume", 1), ("stop", 2), ("next", 6), ("previous", 6), ("seek", 2), ("deliver", 10),
-               ("atf", 5), ("tick", 1), ("move", 0.5), ("shuffle", 0.5)],
+               ("atf", 5), ("eos", 1), ("tick", 1), ("move", 0.5), ("shuffle", 0.5)],
     "restore": [("add", 6), ("remove", 1), ("move", 1), ("setmode", 3), ("play", 5), ("pause", 2),
                 ("resume", 1), ("stop", 1), ("next", 3), ("previous", 1), ("seek", 3), ("deliver", 10),
                 ("tick", 3), ("setvolume", 2), ("setmute", 1), ("atf", 1)],
@@ -204,10 +212,26 @@ def generate_and_run(rng, profile, max_client_ops=None):
                 pred = {"next": "getnext", "previous": "getprev", "atf": "geteot"}.get(op[0])
                 if pred and rng.random() < 0.8:
                     do([pred])
+                if op[0] == "atf" and rng.random() < 0.3 and str(runner.core.playback.get_state()) == "playing":
+                    # the announcement is served after a pause that was queued first
+                    do(["pause"])
+                    settle()
+                    do(["geteot"])
+                    do(["atf"])
+                    settle()
+                    do(["resume"])
+                    settle()
+                    do(["eos"])
+                    settle()
+                    continue
             do(op)
             if profile == "settled":
                 settle()
         if profile == "restore":
+            if rng.random() < 0.3:
+                # a session that already has a long play history (around the 500-entry cap)
+                n = rng.choice([3, 499, 500, 501, 620])
+                do(["sethistory", [rng.randrange(NTRACKS) for _ in range(n)]])
             if rng.random() < 0.6:
                 settle()
             cov = [True] * 5 if rng.random() < 0.6 else [rng.random() < 0.6 for _ in range(5)]
